@@ -13,7 +13,7 @@ TITLE = "Extraction, resolution and annotation never raise on any string"
 TECHNIQUE = (
     "bounded-exhaustive exploration of the full pipeline get_citations -> resolve_citations -> annotate_citations: "
     "all strings <= n over a hostile character alphabet and all fragment sequences <= k over hostile fragments, "
-    "x 3 tokenizers x {plain, remove_ambiguous} x 3 span kinds x 3 tag modes"
+    "x 3 tokenizers x {plain, remove_ambiguous} x 3 span kinds x 3 tag modes; with the default tokenizer also as a markup document"
 )
 RULE = (
     "chars: every string of length <= n over the 14-character hostile alphabet; frags: every concatenation of <= k "
@@ -149,6 +149,16 @@ def pipeline(tok, text):
                         out.append(("type-annotate", f"annotate_citations returned {type(s).__name__}"))
         except Exception as e:  # noqa: BLE001
             out.append((f"raise-{stage}", f"{short_exc(e)} (remove_ambiguous={ra})"))
+    if tok == "AC":
+        # the same string as a markup document (html cleaning, offset translation, markup-only references)
+        for steps in (["html", "all_whitespace"], ["html"]):
+            try:
+                cits = get_citations(markup_text=text, clean_steps=steps, tokenizer=tk)
+                if not isinstance(cits, list):
+                    out.append(("type-extract-markup", f"get_citations(markup_text=...) returned {type(cits).__name__}"))
+                resolve_citations(cits)
+            except Exception as e:  # noqa: BLE001
+                out.append(("raise-markup", f"{short_exc(e)} (clean_steps={steps})"))
     return out, ncit, kinds
 
 
